@@ -81,6 +81,10 @@ if __name__ == "__main__":
         imports()
     elif cmd == "determinism":
         sys.exit(determinism(int(sys.argv[2]) if len(sys.argv) > 2 else 20))
+    elif cmd == "lockmodel":
+        from jv import locktest
+
+        sys.exit(locktest.main(int(sys.argv[2]) if len(sys.argv) > 2 else 200))
     elif cmd == "_digests":
         from jv import profiles, plugins  # noqa: F401
 
